@@ -4,6 +4,7 @@ import (
 	"context"
 	"errors"
 	"fmt"
+	"strings"
 
 	"diagonal.works/b6"
 	"diagonal.works/b6/api"
@@ -38,6 +39,10 @@ func init() {
 type c25Source struct {
 	vals   []int
 	failAt int // position at which the iterator fails, -1 never
+	// itemShape: the failure is reported as (true, err) - "this item failed",
+	// as b6's own lazy map / map-items collections report a failing function -
+	// instead of (false, err)
+	itemShape bool
 }
 
 type c25Iter struct {
@@ -53,6 +58,9 @@ func (s *c25Source) Count() (int, bool)           { return len(s.vals), true }
 func (it *c25Iter) Next() (bool, error) {
 	it.i++
 	if it.i == it.s.failAt {
+		if it.s.itemShape && it.i < len(it.s.vals) {
+			return true, errSourceIterator
+		}
 		return false, errSourceIterator
 	}
 	return it.i < len(it.s.vals), nil
@@ -66,6 +74,30 @@ func (it *c25Iter) ValueExpression() b6.Expression {
 
 type c25Item struct {
 	k, v any
+}
+
+// c25Look renders a value the mapped function returned; a collection is
+// iterated to its end (what a consumer that uses the value does).
+func c25Look(v any) any {
+	c, ok := v.(b6.UntypedCollection)
+	if !ok {
+		return v
+	}
+	var b strings.Builder
+	b.WriteString("[")
+	it := c.BeginUntyped()
+	for n := 0; n < 16; n++ {
+		ok, err := it.Next()
+		if err != nil {
+			fmt.Fprintf(&b, " ERROR(%v)", err)
+			break
+		}
+		if !ok {
+			break
+		}
+		fmt.Fprintf(&b, " %v:%v", it.Key(), it.Value())
+	}
+	return b.String() + " ]"
 }
 
 type c25Errors struct{ item int }
@@ -94,6 +126,7 @@ func runC25(rc *RC) {
 	src := &c25Source{vals: vals, failAt: -1}
 	if rc.Pct(15) {
 		src.failAt = rc.Draw(n + 1)
+		src.itemShape = rc.Pct(50)
 	}
 	slowPct := 0
 	if rc.Pct(50) {
@@ -118,14 +151,21 @@ func runC25(rc *RC) {
 	}
 	// half of the runs map a lambda with nested calls (deeper VM stacks in
 	// the forked per-worker VMs), the others the bare function symbol
-	lambda := rc.Pick(4, 3, 1, 1, 1)
+	lambda := rc.Pick(4, 3, 1, 1, 1, 2)
 	useLambda := lambda > 0
 	rc.Knob("lambda", lambda)
-	lambdaText := []string{"", "{v -> verif-f (verif-id (verif-id v))}", "{v -> add-ints 100 (verif-f v)}", "{v -> add-ints (verif-id v) (verif-f (verif-id v))}", "{v -> add-ints (verif-f v) (add-ints (verif-id v) (verif-id 7))}"}[lambda]
+	lambdaText := []string{"", "{v -> verif-f (verif-id (verif-id v))}", "{v -> add-ints 100 (verif-f v)}", "{v -> add-ints (verif-id v) (verif-f (verif-id v))}", "{v -> add-ints (verif-f v) (add-ints (verif-id v) (verif-id 7))}",
+		// the function returns a lazily evaluated collection that the consumer looks into
+		"{v -> verif-pair (verif-f v) | map verif-id}"}[lambda]
+	// when the consumer looks into values that are collections: as they arrive, or after the whole result was consumed
+	lookLate := rc.Pct(50)
 	// how the result is consumed: once; twice in a row; by two iterators of
 	// the same collection value moving in turns
 	consume := rc.Pick(8, 1, 1)
 	rc.Knob("consume", consume)
+	fs["verif-pair"] = func(c *api.Context, v int) (b6.Collection[int, int], error) {
+		return b6.ArrayCollection[int, int]{Keys: []int{0, 1}, Values: []int{v, v + 1}}.Collection(), nil
+	}
 	fs["verif-id"] = func(c *api.Context, v int) (int, error) {
 		if slowPct > 0 && (v*53)%100 < slowPct {
 			simrt.Yield("verif-id.slow")
@@ -166,7 +206,11 @@ func runC25(rc *RC) {
 					*done = true
 					return
 				}
-				*items = append(*items, c25Item{it.Key(), it.Value()})
+				v := it.Value()
+				if !lookLate || (fn != "map" && consume != 0) {
+					v = c25Look(v)
+				}
+				*items = append(*items, c25Item{it.Key(), v})
 			}
 		}
 		var done bool
@@ -210,6 +254,9 @@ func runC25(rc *RC) {
 		}
 		if !done {
 			return items, errors.New("iterator did not end"), nil
+		}
+		for i := range items {
+			items[i].v = c25Look(items[i].v)
 		}
 		return items, err, nil
 	}
